@@ -10,7 +10,7 @@ entries as of its last directory fsync).  Two complementary obligations over the
  flip-instant       at the instant of every pointer rename (also with two concurrent writers under the baton
                     scheduler), every file reachable from the new version is already flushed and linked."""
 from vf.oracles import reader
-from vf.props.common import HINT, SCH, outcome, pointer_flips, protocol_points
+from vf.props.common import is_hint, HINT, SCH, outcome, pointer_flips, protocol_points
 from vf.props.singleop import is_post, is_pre, min_prior, run_op, setup, summarize
 from vf.rigs.env import Env
 from vf.rigs.world import Killed, crash_at
@@ -128,7 +128,7 @@ def powerloss(sp, op="append", n_prior=1, drop_fsync=None):
         sp.require(rows == (obs.rows or []) and rows2 == sorted(rows + [999]), f"{tag}: recovery rows {rows} / {rows2}", {"sig": f"{tag}:recovery-rows"})
 
 
-def fsync_fault(sp, op="append", n_prior=1):
+def fsync_fault(sp, op="append", n_prior=1, dirs=False):
     """The k-th fsync of a FILE (k symbolic) reports an I/O error (nothing is flushed).  If the operation is nevertheless
     acknowledged, it must survive a power loss right after it returned; in no case may the surviving pointer lead to missing /
     partial files.  (Directory-fsync errors are tolerated by design on file systems without directory fsync and are not injected.)"""
@@ -153,7 +153,7 @@ def fsync_fault(sp, op="append", n_prior=1):
             if label != "fsync":
                 return
             ofd = fos.fds.get(info.get("fd"))
-            if ofd is None or ofd.isdir:
+            if ofd is None or bool(ofd.isdir) != bool(dirs):
                 return
             hit = bool(seen["n"] == k)
             seen["n"] += 1
@@ -168,6 +168,29 @@ def fsync_fault(sp, op="append", n_prior=1):
         except Exception:  # noqa
             pass
         w.callbacks.clear()
+        if dirs:
+            # a failing DIRECTORY fsync is tolerated by design (file systems without directory fsync); what may never happen - with or
+            # without a power loss - is a pointer that names files the library itself removed while handling that error
+            try:
+                o0 = summarize(e)
+                if o0.md is not None:
+                    for s_ in o0.md["snapshots"]:
+                        reader.snapshot_rows(o0.files, s_, "a")
+                ok0 = is_pre(pre, o0) or is_post(pre, o0, op)
+            except reader.Unreadable as ex:
+                sp.require(False, f"fsync-fault:{op}: the fsync of directory {seen['fired']} failed, the operation {'was acknowledged' if acked else 'raised'} "
+                           f"and the pointer now leads to missing files: {ex}", {"sig": f"fsync-fault:{op}:dir:pointer-names-missing-files"})
+                return
+            sp.require(ok0, f"fsync-fault:{op}: directory fsync failure left neither pre nor post state", {"sig": f"fsync-fault:{op}:dir:neither"})
+            if acked:
+                sp.require(is_post(pre, o0, op), f"fsync-fault:{op}: acknowledged but not in the post-state", {"sig": f"fsync-fault:{op}:dir:acked-not-post"})
+            else:
+                sp.require(is_pre(pre, o0), f"fsync-fault:{op}: the operation raised on a directory-fsync error but its effect is visible "
+                           f"(the error arrived after the rename)", {"sig": f"fsync-fault:{op}:dir:raised-but-applied"})
+            sp.note("failing_fsync_of", seen["fired"])
+            sp.note("acknowledged", acked)
+            sp.reach("ran")
+            return
         fos.power_loss()
         sp.note("failing_fsync_of", seen["fired"])
         sp.note("acknowledged", acked)
@@ -189,7 +212,7 @@ def fsync_fault(sp, op="append", n_prior=1):
             sp.require(is_pre(pre, obs) or is_post(pre, obs, op), f"{tag}: neither pre nor post state after power loss", {"sig": f"{tag}:neither"})
 
 
-def flip_instant(sp, ops=("append", "append"), K=2):
+def flip_instant(sp, ops=("append", "append"), K=2, dirsync_points=False):
     with Env(sp, rig="L", clock="tick") as e:
         w = e.world
         t0 = e.table(schema=SCH)
@@ -217,6 +240,16 @@ def flip_instant(sp, ops=("append", "append"), K=2):
         sc = Sched(sp, K=K, world=w)
 
         def pts(label, info):
+            if dirsync_points:
+                # the two writers may also interleave around every DIRECTORY sync of the manifest directory and every rename into it:
+                # a rename is durable only through a directory fsync issued AFTER it
+                p = info.get("path") or ""
+                ofd = e.fos.fds.get(info.get("fd")) if "fd" in info else None
+                if label in ("fsync", "close") and ofd is not None and ofd.isdir and "manifests" in (ofd.path or ""):
+                    return True
+                if label == "replace" and "metadata/manifests" in p:
+                    return True
+                return is_hint(info) and label in ("replace", "rename") or label in ("flock", "rlock", "sleep")
             return protocol_points(label, info) or (label in ("write", "open") and "inflight" in (info.get("path") or ""))
         w.yield_filter = pts
         for i, kind in enumerate(ops):
@@ -249,6 +282,13 @@ def obligations(tier):
     for op in (["append", "delete"] if tier == "quick" else ["append", "append2", "delete", "replace", "expire", "delsnap_cur", "create"]):
         obs.append(Ob(f"fsyncfault.{op}", "vf.props.c16:fsync_fault", {"op": op, "n_prior": min_prior(op) if op != "create" else 0, "_must_reach": ["ran"]}, timeout=T,
                       bounds=f"operation {op}: each file fsync (symbolic index) fails with EIO, then power loss after the call returned", weight=3))
+    obs.append(Ob("flip.dirsync.append+append.K3", "vf.props.c16:flip_instant", {"ops": ["append", "append"], "K": 3, "dirsync_points": True, "_must_reach": ["ran"]},
+                  timeout=T, bounds="two writers on separate handles, K=3, pre-emption around every directory fsync of / rename into metadata/manifests; "
+                                    "durability asserted at every pointer rename", weight=6))
+    for op in (["append"] if tier == "quick" else ["append", "delete", "expire", "create"]):
+        obs.append(Ob(f"fsyncfault.dir.{op}", "vf.props.c16:fsync_fault", {"op": op, "n_prior": min_prior(op) if op != "create" else 0, "dirs": True, "_must_reach": ["ran"]},
+                      timeout=T, bounds=f"operation {op}: each DIRECTORY fsync (symbolic index) fails with EIO; the pointer must never name files the error handling removed",
+                      weight=3))
     pairs = [("append", "append")] if tier == "quick" else [("append", "append"), ("append", "delete"), ("append2", "expire"), ("replace", "append")]
     for pr in pairs:
         K = 2 if tier == "quick" else 3
